@@ -327,4 +327,5 @@ func TestC03(t *testing.T) {
 	})
 
 	rapidProp(t, st, "proposal", perShard(pick(320, 12000)), 1, c03Gen, func(p sPlan) *viol { return c03Run(t, st, p) })
+	rapidProp(t, st, "cli-export", perShard(pick(64, 1600)), 5, c03GenExport, func(p c03ExportPlan) *viol { return c03RunExport(t, st, p) })
 }
